@@ -178,6 +178,20 @@ def replay(ctx, st, idx):
                             ctx.dontcare += 1
                         if not ok:
                             return ctx.violation(sig + ('data' if c[0] == 'd' else 'zero'), f'multiply[{j},{i}] = {v!r}, expected {c}', dict(case, real=o.tolist()))
+                # the same mask with every weight scaled by 2e-9 (slivers of an exact-mode mask): a tiny positive weight is still a weight
+                if idx % 4 == 0 and kind != 'quantity':
+                    from regions import RegionMask
+                    TS = 2e-9
+                    tiny = RegionMask(np.asarray(mask.data, dtype=float) * TS, mask.bbox)
+                    o2 = plain(tiny.multiply(img, fill_value=fill))
+                    for j in range(ny):
+                        for i in range(nx):
+                            c = want[j][i]
+                            if c[0] == 'd':
+                                exp = (c[1] if kind == 'int' else A_ * c[1] + B_ * weight(pat, j, i) / 2.0) * TS
+                                if not abs(float(o2[j, i]) - exp) <= 1e-12 * abs(exp):
+                                    return ctx.violation(sig + 'tiny-weight', f'multiply with weights of {TS * weight(pat, j, i) / 2.0:g}: [{j},{i}] = {float(o2[j, i])!r}, expected data * weight = {exp!r}',
+                                                         dict(case, real=o2.tolist()))
         elif op == 'get_values':
             mk = None
             if arg == 'alt':
